@@ -57,17 +57,37 @@ def oracle(ctx, case, jcase):
     out = real.run_validate(case, normalize=False)
     if out.exc is not None:
         return
-    v = out.v
-    doc = case['doc']
-    for f, rules in case['schema'].items():
+    level(ctx, case, jcase, out.v, case['schema'], case['doc'], list(out.errors), (), copy.deepcopy(case.get('cfg', {})), 0)
+
+
+def level(ctx, case, jcase, v, schema, doc, errs, prefix, cfg, depth):
+    """the *of rules of one mapping level: the errors the (parent) run reported at this level against standalone
+    evaluations of every definition with the configuration this level has"""
+    lcase = dict(case, schema=schema, doc=doc, cfg=cfg)
+    for f, rules in schema.items():
         if not isinstance(rules, dict) or f not in doc:
             continue
+        value = doc[f]
+        errs_f = [e for e in errs if tuple(e.document_path) == prefix + (f,)]
+        # one level down: a mapping sub-document with its own allow_unknown / require_all
+        sub = rules.get('schema')
+        if depth < 3 and isinstance(value, dict) and isinstance(sub, dict) and sub and all(isinstance(x, dict) for x in sub.values()) \
+                and rules.get('type') in ('dict', None) and '^' not in repr(sub) and not rules.get('readonly'):
+            kids = []
+            for e in errs_f:
+                if e.code == 0x81:
+                    kids = list(e.child_errors or [])
+            c2 = dict(cfg)
+            if 'allow_unknown' in rules:
+                c2['allow_unknown'] = copy.deepcopy(rules['allow_unknown'])
+            if 'require_all' in rules:
+                c2['require_all'] = rules['require_all']
+            if not (value is None) and type_ok(v, rules, value):
+                level(ctx, case, jcase, v, sub, value, kids, prefix + (f,), c2, depth + 1)
         ops = [op for op in OPS if op in rules]
         if not ops:
             continue
-        value = doc[f]
-        errs_f = [e for e in out.errors if e.document_path == (f,)]
-        if value is None and not cfg_ignores(case):
+        if value is None and not cfg.get('ignore_none_values'):
             if any(e.code in (0x91, 0x92, 0x93, 0x94) for e in errs_f):
                 ctx.fail('C09 oracle: an *of error was reported for a None value', jcase)
             continue
@@ -81,7 +101,7 @@ def oracle(ctx, case, jcase):
             continue
         for op in ops:
             try:
-                n, failing = standalone_count(case, f, rules, op)
+                n, failing = standalone_count(lcase, f, rules, op)
             except Exception as e:
                 ctx.dist('skipped', 'standalone raised ' + type(e).__name__)
                 continue
@@ -89,20 +109,22 @@ def oracle(ctx, case, jcase):
             must = {'anyof': n < 1, 'allof': n < total, 'noneof': n > 0, 'oneof': n != 1}[op]
             got = [e for e in errs_f if e.code == OPS[op].code]
             ctx.dist('standalone_valid', '%s:%d/%d' % (op, n, total))
+            ctx.dist('of_rule_depth', depth)
+            where = dict(jcase, field=codec.enc_key(f), below=[codec.enc_key(k) for k in prefix])
             if must != bool(got):
                 ctx.fail('C09 oracle: %s with %d of %d definitions validating: error %s' %
-                         (op, n, total, 'missing' if must else 'unexpected'), dict(jcase, field=codec.enc_key(f)))
+                         (op, n, total, 'missing' if must else 'unexpected'), where)
                 continue
             if got:
                 e = got[0]
                 if tuple(e.info[1:3]) != (n, total):
                     ctx.fail('C09 oracle: %s error carries counts %r, standalone validation gives (%d, %d)' %
-                             (op, e.info[1:3], n, total), dict(jcase, field=codec.enc_key(f)))
+                             (op, e.info[1:3], n, total), where)
                 de = e.definitions_errors
                 keys = sorted(k for k in de if de[k])
                 if keys != failing:
                     ctx.fail('C09 oracle: %s error lists failing definitions %r, standalone validation gives %r' %
-                             (op, keys, failing), dict(jcase, field=codec.enc_key(f)))
+                             (op, keys, failing), where)
 
 
 def cfg_ignores(case):
